@@ -732,3 +732,136 @@ theorem unreachableCount_zero (steps : List (Step D)) (h : Step.unreachable ∉ 
     | unreachable => simp at h
 
 end Aw.Intersect
+
+namespace Aw.Intersect
+open Aw
+variable {D : Type}
+set_option linter.unusedSectionVars false
+
+/-! ## measure as a count of microsecond cells -/
+
+open Classical in
+/-- number of instants `t` (microsecond cells `[t, t+1)`) in the window `[lo, lo + n)` with `P t` -/
+noncomputable def cells (P : Int → Prop) (lo : Int) : Nat → Int
+  | 0 => 0
+  | n + 1 => cells P lo n + (if P (lo + n) then 1 else 0)
+
+theorem cells_congr (P Q : Int → Prop) (h : ∀ t, P t ↔ Q t) (lo : Int) (n : Nat) :
+    cells P lo n = cells Q lo n := by
+  induction n with
+  | zero => rfl
+  | succ n ih =>
+    simp only [cells, ih]
+    by_cases hp : P (lo + n)
+    · have hq := (h _).1 hp; simp [hp, hq]
+    · have hq : ¬ Q (lo + n) := fun x => hp ((h _).2 x); simp [hp, hq]
+
+theorem cells_or (P Q : Int → Prop) (h : ∀ t, ¬ (P t ∧ Q t)) (lo : Int) (n : Nat) :
+    cells (fun t => P t ∨ Q t) lo n = cells P lo n + cells Q lo n := by
+  induction n with
+  | zero => rfl
+  | succ n ih =>
+    simp only [cells, ih]
+    have := h (lo + n)
+    by_cases hp : P (lo + n) <;> by_cases hq : Q (lo + n) <;> simp [hp, hq] <;> first | omega | (exfalso; exact this ⟨hp, hq⟩)
+
+theorem cells_false (lo : Int) (n : Nat) : cells (fun _ => False) lo n = 0 := by
+  induction n with
+  | zero => rfl
+  | succ n ih => simp [cells, ih]
+
+theorem cells_interval (a b lo : Int) (n : Nat) :
+    cells (fun t => a ≤ t ∧ t < b) lo n = max 0 (min b (lo + n) - max a lo) := by
+  induction n with
+  | zero => simp only [cells]; omega
+  | succ n ih =>
+    simp only [cells, ih]
+    by_cases h : a ≤ lo + n ∧ lo + n < b
+    · simp only [h, and_self, if_true]; omega
+    · simp only [h, if_false]; omega
+
+/-- half-open membership -/
+def Inside (e : Ev D) (t : Int) : Prop := e.ts ≤ t ∧ t < e.ts + e.dur
+
+/-- for events of which the positive-length ones are disjoint and in order, the number of cells
+    covered is the sum of the durations -/
+theorem cells_eq_durSum (out : List (Ev D)) (hn : Nonneg out)
+    (hp : out.Pairwise (fun p q => 0 < q.dur → p.ts + p.dur ≤ q.ts))
+    (lo : Int) (n : Nat) (hw : ∀ o ∈ out, lo ≤ o.ts ∧ o.ts + o.dur ≤ lo + n) :
+    cells (fun t => ∃ o ∈ out, Inside o t) lo n = durSum out := by
+  induction out with
+  | nil => simp [durSum]; exact cells_false lo n
+  | cons o os ih =>
+    have hpc := List.pairwise_cons.1 hp
+    have h1 : ∀ t, (∃ x ∈ o :: os, Inside x t) ↔ (o.ts ≤ t ∧ t < o.ts + o.dur) ∨ (∃ x ∈ os, Inside x t) := by
+      intro t; simp only [List.mem_cons, exists_eq_or_imp, Inside]
+    rw [cells_congr _ _ h1, cells_or, cells_interval, ih hn.tail hpc.2
+      (fun x hx => hw x (List.mem_cons_of_mem _ hx))]
+    · have := hw o (by simp)
+      have := hn o (by simp)
+      simp only [durSum, List.map_cons, List.sum_cons]
+      omega
+    · rintro t ⟨⟨h2, h3⟩, x, hx, h4, h5⟩
+      have := hpc.1 x hx
+      omega
+
+end Aw.Intersect
+
+namespace Aw.Intersect
+open Aw
+variable {D : Type}
+set_option linter.unusedSectionVars false
+
+/-- half-open form of `groups_cover` -/
+theorem groups_inside (last : Ev D) (es : List (Ev D)) (h : Pending last es) (t : Int) :
+    (∃ o ∈ groups last es, Inside o t) ↔ (Inside last t ∨ ∃ e ∈ es, Inside e t) := by
+  induction es generalizing last with
+  | nil => simp [groups]
+  | cons e es ih =>
+    unfold groups
+    split
+    · rename_i hg
+      rw [ih _ h.merge]
+      have hm := mergeLast_spec h hg
+      have : Inside (mergeLast last e) t ↔ (Inside last t ∨ Inside e t) := by
+        unfold Inside; omega
+      rw [this]
+      simp only [List.mem_cons, exists_eq_or_imp]
+      exact or_assoc
+    · simp only [List.mem_cons, exists_eq_or_imp]
+      rw [ih _ h.next]
+
+/-- half-open form of the cover statement of `unionOut_spec` -/
+theorem unionOut_inside (empty : D) (l1 l2 : List (Ev D)) (hn : Nonneg (l1 ++ l2))
+    (ha : MsAligned (l1 ++ l2)) (t : Int) :
+    (∃ o ∈ unionOut empty l1 l2, Inside o t) ↔ ∃ e ∈ l1 ++ l2, Inside e t := by
+  unfold unionOut
+  split
+  · rename_i hs
+    have hnil : l1 ++ l2 = [] := by
+      cases hl : l1 ++ l2 with
+      | nil => rfl
+      | cons x xs =>
+        have : x ∈ sortBy (·.ts) (l1 ++ l2) := (mem_sortBy _ x _).2 (by rw [hl]; simp)
+        rw [hs] at this; simp at this
+    simp [hnil]
+  · rename_i e0 es hs
+    have hp := pending_of_sorted _ hn ha e0 es hs
+    have hc := groups_inside e0 es hp t
+    have hm : (∃ e ∈ l1 ++ l2, Inside e t) ↔ (Inside e0 t ∨ ∃ e ∈ es, Inside e t) := by
+      constructor
+      · rintro ⟨e, he, hce⟩
+        have : e ∈ e0 :: es := hs ▸ (mem_sortBy (·.ts) e _).2 he
+        rcases List.mem_cons.1 this with rfl | h
+        · exact Or.inl hce
+        · exact Or.inr ⟨e, h, hce⟩
+      · rintro (h | ⟨e, he, h⟩)
+        · exact ⟨e0, (mem_sortBy (·.ts) e0 _).1 (hs ▸ List.mem_cons_self), h⟩
+        · exact ⟨e, (mem_sortBy (·.ts) e _).1 (hs ▸ List.mem_cons_of_mem _ he), h⟩
+    rw [hm, ← hc]
+    simp only [List.mem_map]
+    constructor
+    · rintro ⟨o, ⟨x, hx, rfl⟩, h⟩; exact ⟨x, hx, h⟩
+    · rintro ⟨x, hx, h⟩; exact ⟨_, ⟨x, hx, rfl⟩, h⟩
+
+end Aw.Intersect
